@@ -54,19 +54,20 @@ def c16_main(tier, only=None):
     if tier == 'quick':
         stamps = [86399, 86400, 1506532648, 1546214400, 1609459200, 1582934400]
     for kind in range(3):
-        for custom in range(6):
+        for custom in range(10):
             for ts in stamps:
                 if tier == 'quick' and custom > 0 and ts not in (86399, 1546214400):
                     continue
                 shapes.append(('hx_dates', [kind, custom, ts], 'dates/k%d/f%d/t%d' % (kind, custom, ts)))
+    shapes.append(('hx_pid', [0, 0], 'pid/changes between messages'))
     if only:
         shapes = [s for s in shapes if re.search(only, s[2])]
     u = E2Unit('log_C16', os.path.join(HERE, 'w_fmt.cpp'), lib_srcs=lib_srcs(), shapes=shapes, timeout=600 if tier == 'quick' else 1800, conc_cap=300,
                bounds=dict(definition='builder sequences of 1-3 (4 thorough) fields over 12 field kinds, width 0..6 and alignment symbolic, automatic separator on/off',
-                           message='level/class symbolic over the enums, line and error number 0..20 symbolic, text 2 symbolic printable bytes (each symbolic where the definition shows it)', attributes='histories of <= 3 (4 thorough) add/remove/scope/message operations', attribute_hierarchy='chains of 1, 3, 4 (thorough 1..5) message attribute objects, defining subset symbolic', dates='3 date/time kinds x default + 5 custom format strings x 6 (thorough 12) time stamps incl. day/year/ISO-week-year boundaries, width 0..24 and alignment symbolic'))
+                           message='level/class symbolic over the enums, line and error number 0..20 symbolic, text 2 symbolic printable bytes (each symbolic where the definition shows it)', attributes='histories of <= 3 (4 thorough) add/remove/scope/message operations', attribute_hierarchy='chains of 1, 3, 4 (thorough 1..5) message attribute objects, defining subset symbolic', dates='3 date/time kinds x default + 9 custom format strings (incl. dense ones: %c, %A %B, several %c) x 6 (thorough 12) time stamps incl. day/year/ISO-week-year boundaries, width 0..24 and alignment symbolic'))
     rule = ('one obligation = (builder sequence or attribute history); widths, alignment flags and message data symbolic; z3 decides equality with the reference definition / reference rendering on every path')
     assumptions = ['IR of creator.cpp, format.cpp, log_msg.cpp, log_attributes*.cpp, logging.cpp + libstdc++ headers', 'ostream padding (setw/left/fill) is produced by the sink model of irsym_cxx following [ostream.formatted]: the real padding code is in libstdc++.so',
-                   'date/time fields: localtime()/strftime() are modelled by their libc contract for concrete time stamps (listed set, TZ=UTC); arbitrary time stamps and the calendar arithmetic of libc are outside the technique', 'clock / pid fixed']
+                   'date/time fields: localtime()/strftime() are modelled by their libc contract for concrete time stamps (listed set, TZ=UTC); arbitrary time stamps and the calendar arithmetic of libc are outside the technique', 'clock fixed; getpid() returns what the harness set with vs_setpid (process id change = fork model)']
 
     def classify(v):
         return v['msg'] if v['kind'] == 'assert' else v['kind'] + ': ' + re.sub(r'0x[0-9a-f]+', 'ADDR', re.sub(r'\d+', 'N', v['msg']))[:110]
